@@ -237,7 +237,9 @@ def run(ctx):
     q_tenths = boxes_over(tenths)
     huge = [float(1 << 53), float((1 << 53) + 2), float((1 << 53) + 6), float((1 << 53) + 8)]
     q_huge = boxes_over(huge)
-    for alphabet, q_alpha in ((tenths, q_tenths), (huge, q_huge)):
+    extreme = [-1.6e308, -1.1e308, 1.1e308, 1.6e308]      # xmin + xmax overflows, xmin/2 + xmax/2 does not
+    q_extreme = boxes_over(extreme)
+    for alphabet, q_alpha in ((tenths, q_tenths), (huge, q_huge), (extreme, q_extreme)):
         for size in (1, 2):
             for chunk in core.split(range(len(q_alpha)), 25):
                 jobs.append(("multi", (alphabet, chunk, size, q_alpha)))
@@ -268,7 +270,7 @@ def run(ctx):
         "rule": f"all multisets of 1..{max_n} boxes over coordinates {{0,1,2}} (36 boxes, 9+9 "
                 "degenerate) x all 36 query boxes; multisets of 1..2(3) boxes over {0,1,2,3} x 100 "
                 "queries; a seed-derived 3-coordinate alphabet; multisets of 1..2 boxes over tenths {0,.1,.2,.3} "
-                "and over {2^53, +2, +6, +8} x 100 queries, 1..3 boxes over {.7,.9,1}; all 4096 subsets of a 12-box "
+                "and over {2^53, +2, +6, +8} and {+-1.1e308, +-1.6e308} x 100 queries, 1..3 boxes over {.7,.9,1}; all 4096 subsets of a 12-box "
                 "arrangement x 16 queries; collections of 20..96 (128) boxes on geometric scales "
                 "(tree depth up to max_tree_depth) queried with every box, its centre and the "
                 "focus; the empty collection; non-trivial = collections whose "
